@@ -17,11 +17,11 @@ TRUSTED_BASE = [
     "pandas joins / apply / .loc write-back and xmltodict (EnumValueType bodies) as modelled; driver, harness, document builder",
 ]
 ASSUMPTIONS = [
-    "node ids coincide with row positions (distinct NodeIds); definitions are EnumStrings (ListOfLocalizedText) or EnumValues (ListOfExtensionObject of EnumValueType)",
+    "definitions are EnumStrings (ListOfLocalizedText) or EnumValues (ListOfExtensionObject of EnumValueType)",
     "recorded finding D-C17a: a list-valued enum variable is replaced by one scalar enumeration built from its first element; an integer without a defined string, "
     "or a null Int32, makes construction raise KeyError (outside the statement: no string is defined)",
 ]
-RULE = ("graphs with 0-3 enumeration types (EnumStrings, EnumValues, or no definition), enum-typed variables with Int32 / list / no value, other variables "
+RULE = ("graphs with 0-3 enumeration types (EnumStrings, EnumValues, or no definition; further properties; subtypes of enumeration types; a node defined twice ahead of them), enum-typed variables with Int32 / list / no value, other variables "
         "of every value type; the transformation applied once (construction) and again; distinct = distinct document; non-trivial = >= 1 enum-typed variable with a value")
 
 T = "http://opcfoundation.org/UA/2008/02/Types.xsd"
@@ -32,6 +32,10 @@ def build_doc(rng):
     n_enum = rng.choice([0, 1, 1, 2, 2, 3])
     out = ['<?xml version="1.0" encoding="utf-8"?>', '<UANodeSet xmlns="http://opcfoundation.org/UA/2011/03/UANodeSet.xsd">',
            '<NamespaceUris><Uri>urn:enum</Uri></NamespaceUris><Models><Model ModelUri="urn:enum" Version="1" PublicationDate="2020-01-01T00:00:00Z"/></Models><Aliases/>']
+    if rng.random() < 0.35:
+        # a node defined twice ahead of everything else (overlapping exports): from here on row labels and ids differ
+        twice = '<UAObject NodeId="ns=1;i=900" BrowseName="1:Twice"><DisplayName>Twice</DisplayName><References><Reference ReferenceType="i=40">i=58</Reference></References></UAObject>'
+        out += [twice, twice.replace("<DisplayName>Twice", "<DisplayName>Twice (again)")]
     enums = []
     nid = 1000
     for e in range(n_enum):
@@ -109,6 +113,24 @@ def build_doc(rng):
             expect[vid] = {"plain": d}
         out.append('<UAVariable NodeId="ns=1;i=%d" BrowseName="1:v%d" DataType="%s"><DisplayName>v%d</DisplayName><References><Reference ReferenceType="i=40">i=63</Reference></References>%s</UAVariable>'
                    % (vid, vid, dtxt, vid, val))
+    # data types that are NOT direct subtypes of Enumeration — a subtype of an enumeration type, and Enumeration itself —
+    # are not enumerations in the sense of the statement: an Int32 of such a variable stays the Int32 it is
+    for en in enums[:2]:
+        if rng.random() < 0.5:
+            sub_id, vid = nid, nid + 1
+            nid += 2
+            out.append('<UADataType NodeId="ns=1;i=%d" BrowseName="1:Sub%d"><DisplayName>Sub%d</DisplayName><References><Reference ReferenceType="i=45" IsForward="false">ns=1;i=%d</Reference></References></UADataType>'
+                       % (sub_id, sub_id, sub_id, en["dt"]))
+            i = rng.choice(list(en["dict"]) or [0])
+            expect[vid] = {"plain": {"t": "Int32", "v": i}}
+            out.append('<UAVariable NodeId="ns=1;i=%d" BrowseName="1:v%d" DataType="ns=1;i=%d"><DisplayName>v%d</DisplayName><References><Reference ReferenceType="i=40">i=63</Reference></References>'
+                       '<Value><Int32 xmlns="%s">%d</Int32></Value></UAVariable>' % (vid, vid, sub_id, vid, T, i))
+    if rng.random() < 0.3:
+        vid = nid
+        nid += 1
+        expect[vid] = {"plain": {"t": "Int32", "v": 1}}
+        out.append('<UAVariable NodeId="ns=1;i=%d" BrowseName="1:v%d" DataType="i=29"><DisplayName>v%d</DisplayName><References><Reference ReferenceType="i=40">i=63</Reference></References>'
+                   '<Value><Int32 xmlns="%s">1</Int32></Value></UAVariable>' % (vid, vid, vid, T))
     defined = [en for en in enums if en["kind"] != "none" and en["dict"]]
     # the same integer under two different enumerations (the string and the name must come from the variable's own DataType)
     if len(defined) >= 2 and rng.random() < 0.8:
